@@ -170,3 +170,40 @@ def run_scenarios(fn):
                                   'note': 'recording and native builds both abort: ' + err2[-300:].replace('\n', ' ')}]}]
     wrapped.__name__ = fn.__name__
     return wrapped
+
+
+PATH_OB = 'recorded path is the only feasible one on the domain'
+
+
+def with_alt_path(one, t, rounds=6):
+    """one(t, values, suffix) -> [Scenario] builds and checks a single-path scenario from shadow values.  If its
+    'path forced' obligation finds another feasible path (a data-dependent branch that the unchanged code does not have),
+    the scenario is rebuilt on solver models of regions not covered so far (up to `rounds` times), so that a violation on
+    such a path is reported with a replay.  Complete coverage is reported only if the solver proves it."""
+    import z3
+    scs = one(t, None)
+    sc0 = scs[0]
+    pf = [r for r in sc0.results if PATH_OB in r['name'] and r['status'] == 'sat' and r.get('model')]
+    if not pf:
+        return scs
+    explored = [z3.And(sc0.path_formulas())]
+    model = pf[0]['model']
+    for k in range(rounds):
+        pt = sc0.point_from_model(model)
+        try:
+            new = one(t, {kk: float(v) for kk, v in pt.items()}, ' (alternative path %d)' % (k + 1))
+        except Exception as e:  # the alternative paths are a bonus; a failure there must not hide the first result
+            sc0._rec('alternative path explored', 'explore', 'unknown', detail='rebuild failed: %r' % (e,))
+            break
+        scs += new
+        explored.append(z3.And(new[0].path_formulas()))
+        r = R.solve('cover', sc0.base(False) + [z3.Not(p) for p in explored], sc0.timeout)
+        sc0.queries += 1
+        if r.status == 'unsat':
+            sc0._rec('the explored paths cover the domain', 'real', 'unsat', r.t, h=len(explored))
+            break
+        if r.status != 'sat':
+            sc0._rec('the explored paths cover the domain', 'real', 'unknown', r.t, detail=r.detail)
+            break
+        model = r.model
+    return scs
